@@ -23,7 +23,7 @@ def gen_threads(wd):
     open(os.path.join(wd, "c15_threads.inc"), "w").write(out)
 META = {
     "level_text": "The real constructor/destructor pairs (EB_NEW / EB_DELETE protocol) of the listed objects run symbolically without failures; assertions: every allocation, mutex and semaphore created by the constructor is released by the destructor chain (live counters return to zero), no invalid or double free (CBMC pointer checks), destructor fields hold the type's own destructor. Teardown after a FAILED construction is C16.",
-    "level_note": "Object-graph level only: encode_dec segments, the system resource manager (pool, muxing queues, fifos, wrappers), picture buffer descriptors, output bitstream units, with small symbolic sizes. Thread exit, mid-stream teardown of a running pipeline and memory growth over repeated sessions are outside (no whole-encoder run is encodable).",
+    "level_note": "Decoder side: the library memory map (real svt_dec_handle_ctor, EB_MALLOC_DEC registrations, svt_av1_dec_deinit, svt_dec_component_de_init) after 0/1/2 allocations and after the sliced multi-thread resource set-up of dec_system_resource_init, with CBMC free()/leak checks. Encoder side, object-graph level only: encode_dec segments, the system resource manager (pool, muxing queues, fifos, wrappers), picture buffer descriptors, output bitstream units, with small symbolic sizes. Thread exit, mid-stream teardown of a running pipeline and memory growth over repeated sessions are outside (no whole-encoder run is encodable).",
     "technique": "CBMC bounded symbolic execution of real ctor+dctor chains with allocation/OS-object live counters",
     "assumptions": ["EbThreads.c replaced by harness/common/threads_model.h", "allocation succeeds (failures: C16)"],
     "outside": ["svt_av1_enc_deinit on a running encoder", "decoder memory map walk"],
